@@ -75,7 +75,17 @@ MISSED_FIRST.update({
  "C18-F": "events returned after the I/O error were only counted; they are now judged: Eof, or exactly what the fault-free run returns from the failed call on",
  "C20-F": "no shape whose container has text content between the list items; added OvlText (the text is one more sibling of one event)",
 })
-# second, third and fourth round: change / needs are taken from the agent's NOTES.md
+MISSED_FIRST.update({
+ "C04-E": "tag names were always valid UTF-8; random documents now also use names that are not (and differ), so that byte-for-byte comparison matters",
+ "C07-F": "no whitespace-only piece of its own next to a DOCTYPE inside a text; added such insertions and fixed regression shapes",
+ "C08-E": "no byte that looks like whitespace to is_ascii_whitespace but is not XML whitespace; added form feed / vertical tab / NEL documents to the terminator pool (C01 caught it through a PI target)",
+ "C08-F": "the buffered readers' event buffer was cleared before every call; it is now also reused without clearing (C02, C08, C16, C18 traces)",
+ "C10-E": "signs were only generated directly behind '&#' / '&#x'; added signs behind leading zeros",
+ "C16-E": "C16 never called read_to_end (C12 caught the change); C16 now runs a configuration probe: after every call, also a failing read_to_end, the configuration must be what the caller set",
+ "C17-E": "C17 injected no I/O faults (C18 caught the change); C17 now also reads every chunked document with a failing first refill and reads on",
+ "C17-F": "the CDATA -> text conversions (escape / partial_escape / minimal_escape) were not called; their unescape() must give the section's string",
+})
+# rounds two to five: change / needs are taken from the agent's NOTES.md
 def from_notes(d):
     t = open(d + '/NOTES.md').read()
     title = t.split('\n', 1)[0].lstrip('# ').strip()
@@ -96,7 +106,7 @@ for k, (change, needs) in S.items():
     d = '/verif/seeded/' + k
     conf = open(d + '/CONFIRM.txt').read().strip().split('\n') if os.path.exists(d + '/CONFIRM.txt') else []
     meta = {
-        "property": k[:3], "variant": k[4:], "round": 4 if k[4:] in "EF" else (3 if k[:3] in ROUND3 else 2) if k[4:] in "CD" else 1, "written_by": "fresh sub-agent given only the property text and a scratch worktree (nothing from /verif)",
+        "property": k[:3], "variant": k[4:], "round": (5 if k[:3] in ROUND3 else 4) if k[4:] in "EF" else (3 if k[:3] in ROUND3 else 2) if k[4:] in "CD" else 1, "written_by": "fresh sub-agent given only the property text and a scratch worktree (nothing from /verif)",
         "change": change, "needs_to_manifest": needs,
         "confirmed_by_me": {"how": "tools/confirm_seed.sh in the scratch worktree: patch applies; default-feature suite passes with it (all-features too where ALLFEAT=1); demo fails with it; demo passes without it", "log": conf},
         "checks_run_against_it": res.get(k, []),
